@@ -205,3 +205,78 @@ Proof.
   replace (o_fee o + x_tip t <=? x_fee t) with true by (symmetry; apply Z.leb_le; lia).
   cbn [negb]. destruct acc; reflexivity.
 Qed.
+
+(* ---- the fee kernel of the model is the translation of the Go source --------------------------------
+   [c10_cancel_caps_fn] (gen/Generated.v) is produced on every run by the translator of harness/extract
+   from the statements of CancelTx between the first cap comparison and gasFeeCap.Add: it is not written
+   by hand.  Arguments: the two suggested caps and the two caps of the original; result (tip, fee). *)
+
+(* the hand-written kernel, as it stands inside [cancel] *)
+Definition cancel_caps (fee0 tip0 ofee otip : Z) : Z * Z :=
+  let fee1 := if fee0 <=? ofee then ofee else fee0 in
+  let tip1 := if tip0 <=? otip then otip else tip0 in
+  let tip2 := (tip1 * bump_num) / bump_den in
+  (tip2, fee1 + tip2).
+
+Lemma caps_translation fee0 tip0 ofee otip :
+  c10_cancel_caps_fn fee0 tip0 ofee otip = cancel_caps fee0 tip0 ofee otip.
+Proof.
+  unfold c10_cancel_caps_fn, cancel_caps.
+  destruct cancel_literals as (-> & -> & _). cbv zeta.
+  (* by the meaning of the comparisons, not by their spelling: a strict comparison in the source
+     selects the same values and is accepted *)
+  repeat match goal with
+         | |- context [Z.leb ?a ?b] => destruct (Z.leb_spec a b)
+         | |- context [Z.ltb ?a ?b] => destruct (Z.ltb_spec a b)
+         end;
+  try (assert (fee0 = ofee) by lia; subst fee0);
+  try (assert (tip0 = otip) by lia; subst tip0);
+  try reflexivity; exfalso; lia.
+Qed.
+
+(* whenever the model submits a replacement, its two caps are the translated source applied to the
+   price and caps of the original and the node's tip suggestion; nothing else of the run matters *)
+Lemma model_caps_are_translation c o tip price s b t acc sug :
+  cancel c (LFound (Some o) true) tip price s b = CSubmit t acc ->
+  tip = TipOk sug ->
+  (x_tip t, x_fee t) = c10_cancel_caps_fn (o_price o) sug (o_fee o) (o_tip o).
+Proof.
+  intros H ->. rewrite caps_translation. unfold cancel, suggest in H.
+  destruct s; simpl in H; inversion H; subst; reflexivity.
+Qed.
+
+(* and a replacement is only ever submitted after a tip suggestion *)
+Lemma model_submit_has_suggestion c l tip price s b t acc :
+  cancel c l tip price s b = CSubmit t acc ->
+  exists o sug, l = LFound (Some o) true /\ tip = TipOk sug.
+Proof.
+  unfold cancel, suggest. intros H.
+  destruct l as [nf|[o|] [|]]; try discriminate.
+  destruct tip as [|sug]; try discriminate.
+  exists o, sug. split; reflexivity.
+Qed.
+
+Example example_caps_translation :
+  c10_cancel_caps_fn 7 10 30 20 = (22, 52) /\ c10_cancel_caps_fn 100 40 30 20 = (44, 144) /\
+  c10_cancel_caps_fn 0 (-3) (-5) (-9) = (-4, -4).
+Proof. vm_compute. repeat split; reflexivity. Qed.
+
+Lemma caps_translation_literal fee0 tip0 ofee otip :
+  c10_cancel_caps_fn fee0 tip0 ofee otip =
+  (let fee1 := if fee0 <=? ofee then ofee else fee0 in
+   let tip1 := if tip0 <=? otip then otip else tip0 in
+   let tip2 := (tip1 * 110) / 100 in
+   (tip2, fee1 + tip2)).
+Proof.
+  rewrite caps_translation. unfold cancel_caps.
+  destruct cancel_literals as (-> & -> & _). reflexivity.
+Qed.
+
+Lemma model_submit_is_translation c l tip price s b t acc :
+  cancel c l tip price s b = CSubmit t acc ->
+  exists o sug, l = LFound (Some o) true /\ tip = TipOk sug /\
+    (x_tip t, x_fee t) = c10_cancel_caps_fn (o_price o) sug (o_fee o) (o_tip o).
+Proof.
+  intros H. destruct (model_submit_has_suggestion _ _ _ _ _ _ _ _ H) as (o & sug & -> & ->).
+  exists o, sug. repeat split. eapply model_caps_are_translation; [exact H | reflexivity].
+Qed.
